@@ -239,6 +239,42 @@ def run(ctx):
         ev = t_["ev"][matched] if matched < len(t_["ev"]) else None
         ctx.violation(key_of(t_, ev), "solve_ivp backward %s not explained by IvpAdjoint at event %d/%d: %s" % (json.dumps(t_["cfg"]), matched + 1, total, json.dumps(ev)[:500]),
                       {"cfg": t_["cfg"]})
+    # tuple (list-of-tensors) states: gradients must equal those of the concatenated state and the closed form
+    ntup = 0
+    for method in ("rk45", "rk4"):
+        for gname in ("inc", "dec"):
+            ntup += 1
+            ctx.case(key=("tuple-state", method, gname))
+            ts0 = torch.tensor(GRIDS[gname], dtype=DT)
+            ts, keep = (refine(ts0, SUB[method]) if method in SUB else (ts0, list(range(len(ts0)))))
+            ts = ts.clone().requires_grad_()
+            A = (torch.tensor([[-0.5, 1.0], [-1.0, -0.3]], dtype=DT)).requires_grad_()
+            ya = torch.tensor([1.0], dtype=DT, requires_grad=True)
+            yb = torch.tensor([-0.4], dtype=DT, requires_grad=True)
+            ftup = lambda t, ys, A_: tuple(x.reshape(1) for x in (A_ @ torch.cat([ys[0], ys[1]])))
+            why = None
+            try:
+                with warnings.catch_warnings():
+                    warnings.simplefilter("ignore")
+                    out = xitorch.integrate.solve_ivp(ftup, ts, (ya, yb), params=(A,), method=method, **FWD[method])
+                    yk = torch.cat([out[0], out[1]], dim=-1)[keep]
+                    yr = lin_ref(ts[keep], torch.cat([ya, yb]), A)
+                    w = torch.cos(torch.arange(yk.numel(), dtype=DT)).reshape(yk.shape)
+                    g1 = torch.autograd.grad((yk * w).sum(), [ya, yb, A, ts], allow_unused=True)
+                    r1 = torch.autograd.grad((yr * w).sum(), [ya, yb, A, ts], allow_unused=True)
+                    tol = 20 * TOL[method]
+                    for nm, a, b in zip(("y0[0]", "y0[1]", "A", "ts"), g1, r1):
+                        a0 = a if a is not None else torch.zeros_like(b)
+                        if nm == "ts":
+                            a0, b = a0[keep], b[keep] if b.shape == a0.shape else b
+                            b = r1[3][keep]
+                        if not torch.allclose(a0, b, atol=tol, rtol=tol):
+                            why = "gradient w.r.t. %s of a tuple state differs from the closed form by %.2e" % (nm, float((a0 - b).abs().max()))
+                            break
+            except Exception as e:
+                why = "raised %s: %s" % (type(e).__name__, str(e)[:140])
+            if why:
+                ctx.violation("ivpadj/tuple-state/%s" % method, "solve_ivp(%s) with a list-of-tensors state on the %s grid: %s" % (method, gname, why), {"method": method, "grid": gname})
     ctx.samples.append(traces[0])
     ctx.notes.update(runs=len(traces), probe_runs=sum(1 for t_ in traces if t_["cfg"]["probe"]), segment_events=sum(1 for t_ in traces for e in t_["ev"] if e["a"] == "seg"))
     ctx.assumptions += [
